@@ -65,6 +65,7 @@ func init() {
 		"toboolean":      argFunc0(funcToBoolean),
 		"tonumber":       argFunc0(funcToNumber),
 		"tostring":       argFunc0(funcToString),
+		"_tostring":      argFunc0(funcToString),
 		"type":           argFunc0(funcType),
 		"reverse":        argFunc0(funcReverse),
 		"contains":       argFunc1(funcContains),
@@ -87,6 +88,7 @@ func init() {
 		"ascii_downcase": argFunc0(funcASCIIDowncase),
 		"ascii_upcase":   argFunc0(funcASCIIUpcase),
 		"tojson":         argFunc0(funcToJSON),
+		"_tojson":        argFunc0(funcToJSON),
 		"fromjson":       argFunc0(funcFromJSON),
 		"format":         argFunc1(funcFormat),
 		"_tohtml":        argFunc0(funcToHTML),
